@@ -13,7 +13,7 @@ func init() {
 	register(&propertyDef{
 		id:    "C16",
 		title: "preparation is deterministic and insensitive to naming and ordering",
-		rules: []ruleFunc{c16R1, c16R2, c16R3, c16R4, c16R5},
+		rules: []ruleFunc{c16R1, c16R2, c16R3, c16R4, c16R5, c16R6},
 		decided: "every iteration over a Go map (range over a map, or over reflect.Value.MapKeys()) in the parse and prepare paths has order-insensitive effects: no outer variable is overwritten with a value derived from the current key/value, no outer slice is appended to without a later sort, no non-error value derived from the current element is returned from inside the loop — except under a len==1 guard or a tabled reason (R1); " +
 			"no ambient nondeterminism (time, random numbers, environment, goroutines) is used in these paths outside the tabled generated-identifier and documented built-in functions (R2); every textual step-path pattern matches all step ids the workflow schema admits and captures exactly the step path (R3, regular-language inclusion). Shared: dependency loops never return early with success, so the graph does not depend on which sibling key was walked first (R4 = C02.R2); nothing is remembered between preparations (R5 = C10.R5).",
 		notDecided: "invariance under consistent renaming of steps beyond the textual patterns of R3; equality of two preparations (needs runs); determinism of dependencies (dgraph, pluginsdk).",
@@ -134,6 +134,48 @@ var c16Table = map[string]string{
 	"(registry.stepRegistry).GetByKind": "fills the ValidKinds list of the `provider not found` error in map order; the list only feeds that error's text — acceptance, graph and schemas do not depend on it",
 }
 
+// the kinds of order-sensitive effect each table entry is about (an entry does not excuse effects of another kind that
+// a later edit adds to the same function)
+var c16TableKinds = map[string][]string{
+	"engine.collectSubworkflowCache":    {"append", "carried"},
+	"infer.mapType":                     {"last", "carried"},
+	"util.BuildNamespaceString":         {"last", "concat", "carried"},
+	"(registry.stepRegistry).GetByKind": {"carried"},
+}
+
+func c16Kind(problem string) string {
+	switch {
+	case strings.HasPrefix(problem, "appends"):
+		return "append"
+	case strings.HasPrefix(problem, "concatenates"):
+		return "concat"
+	case strings.HasPrefix(problem, "an outer variable keeps"):
+		return "last"
+	case strings.HasPrefix(problem, "the variable"):
+		return "carried"
+	case strings.HasPrefix(problem, "the field"):
+		return "shared-object"
+	case strings.HasPrefix(problem, "returns"):
+		return "return"
+	case strings.HasPrefix(problem, "leaves the loop early"):
+		return "break"
+	}
+	return "other"
+}
+
+func c16KindsAllowed(tabledName string, problems []string) bool {
+	allowed := map[string]bool{}
+	for _, k := range c16TableKinds[tabledName] {
+		allowed[k] = true
+	}
+	for _, p := range problems {
+		if !allowed[c16Kind(p)] {
+			return false
+		}
+	}
+	return true
+}
+
 // C16.R1 map iteration is order-insensitive.
 func c16R1(c *Ctx) {
 	const rule = "C16.R1"
@@ -161,7 +203,7 @@ func c16R1(c *Ctx) {
 				c.ok(rule, key, pos, ml.how+": order-sensitive effect under a len(m) == 1 guard ("+strings.Join(problems, "; ")+")", true)
 				continue
 			}
-			if why, ok := c.c16Tabled(fn); ok {
+			if why, ok := c.c16Tabled(fn); ok && c16KindsAllowed(c.c16TabledName(fn), problems) {
 				c.ok(rule, key, pos, "tabled: "+why+" ["+strings.Join(problems, "; ")+"]", false)
 				continue
 			}
@@ -569,4 +611,85 @@ func (c *Ctx) c16Tabled(fn *ssa.Function) (string, bool) {
 		}
 	}
 	return "", false
+}
+
+// c16TabledName: the table key under which c16Tabled found fn (its own name or the owner's).
+func (c *Ctx) c16TabledName(fn *ssa.Function) string {
+	if _, ok := c16Table[c.fnName(fn)]; ok {
+		return c.fnName(fn)
+	}
+	cur := fn
+	for i := 0; i < 6; i++ {
+		s := ownerSite[cur]
+		if s == nil {
+			return ""
+		}
+		cur = s.Parent()
+		if _, ok := c16Table[c.fnName(cur)]; ok {
+			return c.fnName(cur)
+		}
+	}
+	return ""
+}
+
+// table: function -> why a textual test of an identifier is harmless
+var c16PrefixTable = map[string]string{}
+
+// C16.R6 identifiers are compared whole.
+func c16R6(c *Ctx) {
+	const rule = "C16.R6"
+	c.explain("C16.R6 on the parse/prepare paths no step id or node id is examined with a textual part-of test (strings.HasPrefix / HasSuffix / Contains / Index …): whether `steps.wait` is a prefix of `steps.wait_2.outputs.success` depends on how the author named the steps, so a verdict or a graph edge that hangs on such a test changes under a consistent renaming. Ids are compared whole, or taken apart at their separators by the expression parser")
+	textual := map[string]bool{"strings.HasPrefix": true, "strings.HasSuffix": true, "strings.Contains": true, "strings.Index": true, "strings.LastIndex": true, "strings.TrimPrefix": true, "strings.TrimSuffix": true, "strings.EqualFold": true}
+	isID := func(v ssa.Value) bool {
+		return derivesFrom(v, func(x ssa.Value) bool {
+			if f := loadedField(x); f != nil && (fieldName(f) == "StepID" || fieldName(f) == "StageID" || fieldName(f) == "OutputID") {
+				return true
+			}
+			if call, ok := x.(*ssa.Call); ok && call.Common().IsInvoke() && call.Common().Method.Name() == "ID" && strings.Contains(call.Common().Value.Type().String(), "dgraph.Node") {
+				return true
+			}
+			// the key of the workflow's step map
+			if ex, ok := x.(*ssa.Extract); ok && ex.Index == 1 {
+				if nx, ok := ex.Tuple.(*ssa.Next); ok {
+					if rg, ok := nx.Iter.(*ssa.Range); ok {
+						if f := loadedField(rg.X); f != nil && fieldName(f) == "Steps" {
+							return true
+						}
+					}
+				}
+			}
+			return false
+		})
+	}
+	n := 0
+	cnt := map[string]int{}
+	for _, fn := range c.parsePrepareFns() {
+		if pkgPathOf(fn) == pkgCmd {
+			continue
+		}
+		eachInstr(fn, func(r instrRef) {
+			call, ok := r.I.(*ssa.Call)
+			if !ok || !textual[calleeName(call.Common())] {
+				return
+			}
+			n++
+			hit := false
+			for _, a := range call.Call.Args {
+				if isID(a) {
+					hit = true
+				}
+			}
+			if !hit {
+				return
+			}
+			cnt[c.fnName(fn)]++
+			key := fmt.Sprintf("textual-id-test@%s#%d", c.fnName(fn), cnt[c.fnName(fn)])
+			if why, ok := c.tabledS(c16PrefixTable, fn, ""); ok {
+				c.ok(rule, key, c.instrPos(call), "tabled: "+why, false)
+				return
+			}
+			c.bad(rule, key, c.instrPos(call), fmt.Sprintf("%s is applied to a step / stage / node id: the outcome depends on the names the author chose (one id can be a textual prefix of another), so a consistent renaming of the steps changes the verdict or the graph", calleeName(call.Common())))
+		})
+	}
+	c.ok(rule, "scanned", "-", fmt.Sprintf("%d textual part-of tests on the parse/prepare paths, none on an identifier", n), false)
 }
